@@ -29,6 +29,10 @@ import (
 
 type fixture struct {
 	H                  hash.Hasher // the shared KMAC128 hasher
+	// argument LISTS that are shared too (not rebuilt per call): a batch that contains entries the
+	// Go layer refuses up front (a 47-byte signature, an identity public key) next to valid ones
+	batchPks           []crypto.PublicKey
+	batchSigs          []crypto.Signature
 	Hused              hash.Hasher // a second shared KMAC128 hasher that was used for streaming before (Write, SumHash, Reset)
 	pop                hash.Hasher // package-level PoP hasher
 	sk1, sk2           crypto.PrivateKey
@@ -131,6 +135,8 @@ func (r *recipe) fresh() *fixture {
 	f.epk = must(crypto.DecodePublicKey(crypto.ECDSAP256, r.epkb))
 	f.esk = must(crypto.DecodePublicKey(crypto.ECDSASecp256k1, r.eskb))
 	f.sigP, f.sigS = sigs[6], sigs[7]
+	f.batchPks = []crypto.PublicKey{f.pk1, crypto.IdentityBLSPublicKey(), f.pk2, f.pk1}
+	f.batchSigs = []crypto.Signature{f.s1, f.s1, f.s2, f.s1[:47]}
 	add := func(n string, v any) { f.names = append(f.names, n); f.shared = append(f.shared, v) }
 	add("kmac-hasher", f.H)
 	add("kmac-hasher-used-before", f.Hused)
@@ -144,6 +150,8 @@ func (r *recipe) fresh() *fixture {
 	add("ecdsa-p256-pk", f.epk)
 	add("ecdsa-secp-pk", f.esk)
 	add("bls-pk1-jacobian", f.pk1j)
+	add("batch-list-of-public-keys", f.batchPks)
+	add("batch-list-of-signatures", f.batchSigs)
 	add("message-frame(m1|m2|guard)", f.msgFrame)
 	add("signature-frame(8 signatures|guard)", f.sigFrame)
 	return f
@@ -245,6 +253,14 @@ var ops = []opDef{
 		return fmt.Sprintf("%x", k.Encode())
 	}},
 	{"BLS.Sign(sk2,m2,H)", func(f *fixture) string { s, err := f.sk2.Sign(f.m2, f.H); return fmt.Sprintf("%x,%v", []byte(s), err) }},
+	{"BatchVerify(shared lists with a 47-byte signature and an identity key)", func(f *fixture) string {
+		r, err := crypto.BatchVerifyBLSSignaturesOneMessage(f.batchPks, f.batchSigs, f.m1, f.H)
+		return fmt.Sprintf("%v,%v", r, err)
+	}},
+	{"AggregateBLSSignatures(shared list)[:3]", func(f *fixture) string {
+		s, err := crypto.AggregateBLSSignatures(f.batchSigs[:3])
+		return fmt.Sprintf("%x,%v", []byte(s), err)
+	}},
 	{"KMAC[used before].ComputeHash(m1)", func(f *fixture) string { return fmt.Sprintf("%x", []byte(f.Hused.ComputeHash(f.m1))) }},
 	{"KMAC[used before].ComputeHash(m2)", func(f *fixture) string { return fmt.Sprintf("%x", []byte(f.Hused.ComputeHash(f.m2))) }},
 	{"AggregateBLSPublicKeys([pk1,pk2]).Encode", func(f *fixture) string {
@@ -693,7 +709,7 @@ func main() {
 	run.Set("states", run.Get("executions"))
 	run.Set("preemption_bound", map[string]int{"two_threads": b2, "three_threads": b3})
 	run.Set("max_schedules_per_program", map[string]int{"two_threads": m2, "three_threads": m3})
-	run.Set("rule", "program = 2 threads (thorough also 3 with a ComputeHash) running one operation each from the 27-operation alphabet (incl. ComputeHash on a hasher that was used for streaming before it was shared) (list-taking operations in two variants with different inputs and results) (KMAC ComputeHash x2 on ONE shared hasher, BLS Sign/Verify/VerifyPOP/GeneratePOP/SPOCKVerify/aggregate/many-message/batch verification sharing keys, that hasher and the package-level PoP hasher, ECDSA Sign/Verify on both curves with per-thread hashers): all unordered pairs, plus all ordered pairs (x, y) as 'one call of x overlapped by two successive calls of y' (the point between the two calls is a free switch point); every execution starts from FRESH shared objects (new hasher, public keys decoded from bytes and never used before), so first use / lazy initialisation is inside the explored schedules; for each program ALL schedules within the preemption bound over statement-level scheduling points in hash/kmac.go, bls.go, bls_multisig.go, spock.go, ecdsa.go; monitors: results equal the solo results, and after EVERY scheduling point a deep reflective snapshot of all shared objects and of the two frames that hold every message and signature (sub-slices with spare capacity, guard bytes) equals the initial one. executions = complete schedules; distinct_nontrivial = programs.")
+	run.Set("rule", "program = 2 threads (thorough also 3 with a ComputeHash) running one operation each from the 29-operation alphabet (incl. a batch verification and an aggregation over SHARED argument lists that hold a 47-byte signature and an identity key; the lists themselves are snapshotted) (incl. ComputeHash on a hasher that was used for streaming before it was shared) (list-taking operations in two variants with different inputs and results) (KMAC ComputeHash x2 on ONE shared hasher, BLS Sign/Verify/VerifyPOP/GeneratePOP/SPOCKVerify/aggregate/many-message/batch verification sharing keys, that hasher and the package-level PoP hasher, ECDSA Sign/Verify on both curves with per-thread hashers): all unordered pairs, plus all ordered pairs (x, y) as 'one call of x overlapped by two successive calls of y' (the point between the two calls is a free switch point); every execution starts from FRESH shared objects (new hasher, public keys decoded from bytes and never used before), so first use / lazy initialisation is inside the explored schedules; for each program ALL schedules within the preemption bound over statement-level scheduling points in hash/kmac.go, bls.go, bls_multisig.go, spock.go, ecdsa.go; monitors: results equal the solo results, and after EVERY scheduling point a deep reflective snapshot of all shared objects and of the two frames that hold every message and signature (sub-slices with spare capacity, guard bytes) equals the initial one. executions = complete schedules; distinct_nontrivial = programs.")
 	run.Assume("private keys have their public key computed before the threads start (lazy public-key caching of private keys is not part of the listed operations)", "interleavings at statement granularity of the instrumented Go files, sequentially consistent; calls into x/crypto, the standard library and C are atomic steps (data races inside them are invisible to this technique)", "ECDSA Sign is randomised: its output is verified, not compared")
 	run.Finish()
 }
